@@ -519,6 +519,29 @@ def rule_label_list_dispatch(ctx, rid='R7'):
         ctx.violated(rid, fi, 'label-list dispatch', '_init_axes has no branch for axes given as a list of label sequences (Axes.from_arrays)')
 
 
+def rule_axis_setitem(ctx, rid='R3'):
+    """Axis.__setitem__ (used by reindex_axis to write the labels of newly inserted positions, and by ds.axes[d][i] = label): the labels are written into the
+    buffer that is stored in _values - when the dtype has to be widened (int labels receiving float labels) _maybe_cast_type returns a new array"""
+    fi = ctx.fn(AX + 'Axis.__setitem__')
+    ITEM, VALUE = P_(fi.params[1]), P_(fi.params[2])
+    ev = run(ctx, fi)
+    ok = True
+    for p in ret_paths(ev):
+        stores = [e for e in p.events if e.kind == 'store_attr' and e.a == SELF and e.b == '_values']
+        writes = [e for e in p.events if e.kind == 'store_sub']
+        if len(stores) != 1 or not (stores[0].c[0] == 'call' and T.call_name(stores[0].c) == '_maybe_cast_type' and stores[0].c[2][:2] == (('attr', SELF, '_values'), VALUE)):
+            ctx.violated(rid, fi, 'Axis.__setitem__: store of the widened labels', 'the array returned by _maybe_cast_type(self._values, value) must be kept in self._values: when the label dtype '
+                         'is widened it is a new buffer, and a write into a local copy is lost (reindexing int labels onto float labels then repeats the last label)', node=fi.node)
+            ok = False
+            continue
+        good = [w for w in writes if w.a == ('attr', SELF, '_values') and w.b == ITEM and w.c == VALUE and p.events.index(w) > p.events.index(stores[0])]
+        if len(good) != 1 or len(writes) != 1:
+            ctx.violated(rid, fi, 'Axis.__setitem__: write of the labels', 'after the store the labels are written as self._values[item] = value (and nowhere else)', node=fi.node)
+            ok = False
+    if ok:
+        ctx.holds(rid, 'Axis.__setitem__: self._values = _maybe_cast_type(self._values, value); self._values[item] = value')
+
+
 def rule_forms(ctx):
     ctx.rule('R7', 'constructor forms', 5)
     fi = ctx.fn(AX + '_init_axes')
@@ -691,6 +714,7 @@ def check(ctx):
     rule_constructor(ctx)
     rule_who_may_write(ctx)
     rule_setter_guards(ctx)
+    rule_axis_setitem(ctx, 'R3')
     rule_names(ctx)
     rule_axis_shape(ctx)
     rule_cache(ctx)
